@@ -124,3 +124,954 @@ def xsd_event(data, sig, reader):
     els, ids, refs, verdict, detail = abstract_xml(data)
     return {"op": "xsd", "sig": sig, "exc": "", "els": els, "ids": ids, "refs": refs, "lxml": verdict, "detail": detail,
             "reader": reader}
+
+
+# ======================================================================================================================
+# tables: Codec.tla is the source of truth (TABLE line of any MC_Codec run); the Python values must match
+# ======================================================================================================================
+NUM = {"zero": 0.0, "one": 1.0, "tenth": 0.1, "half": 0.5, "ordinary": 12.345678, "tiny": 1e-6, "small": 9.9e-5,
+       "big": 1e5, "long": 123456.789012, "neg": -2.25, "angle": 0.7853981633974483}
+GEO_REF = {"None": None, "utm": "+proj=utm +zone=32 +ellps=WGS84"}
+AUTHOR, AFFILIATION, SOURCE = "crv-author", "crv-affiliation", "crv-source"
+COMPONENTS = ["obstacle", "planning", "lanelet", "sign", "light", "intersection", "header", "numbers"]
+MAX_CLAUSE = 52          # TLC wraps printed tuples beyond 80 columns and the REJECT parser is line based
+_TABLE_FILE = os.path.join(tlc.OUT, "gen", "codec_tables.json")
+_tables = None
+
+
+def tables_from_output(out):
+    for p in tlc.printed_tuples(out, "TABLE"):
+        return json.loads(tlc.tla_unquote(p))
+    raise tlc.MachineryError("MC_Codec did not print its TABLE line:\n" + out[-1500:])
+
+
+def save_tables(t):
+    os.makedirs(os.path.dirname(_TABLE_FILE), exist_ok=True)
+    with open(_TABLE_FILE, "w") as f:
+        json.dump(t, f)
+
+
+def tables():
+    global _tables
+    if _tables is None:
+        if not os.path.exists(_TABLE_FILE):
+            r = tlc.run_tlc("MC_Codec", "GEN_Codec_light.cfg", "codec_tables", workers=1, timeout=600)
+            save_tables(tables_from_output(r["out"]))
+        with open(_TABLE_FILE) as f:
+            t = json.load(f)
+        t["attr_order"] = [r[0] for r in t["attrs"]]
+        t["attr_short"] = {r[0]: r[1] for r in t["attrs"]}
+        t["enum_names"] = {k: [r[0] for r in v] for k, v in t["enums"].items()}
+        _tables = t
+    return _tables
+
+
+def check_tables(t, notes):
+    """The spec's tables against the library, the XSD and the *_pb2 descriptors.  Disagreement about what the code base
+    defines = the spec must be updated (machinery failure); nothing here is a property verdict."""
+    use_repo()
+    import dataclasses
+    import enum as _enum
+    from lxml import etree
+    import commonroad.scenario.state as S
+    import commonroad.scenario.traffic_sign as TS
+    from commonroad.common.common_lanelet import LaneletType, LineMarking, RoadUser
+    from commonroad.scenario.obstacle import ObstacleType
+    from commonroad.scenario.scenario import Tag, TimeOfDay, Underground, Weather
+    from commonroad.scenario.traffic_light import TrafficLightDirection, TrafficLightState
+    from commonroad.scenario_definition.protobuf_format.generated_scripts import (lanelet_pb2, location_pb2, obstacle_pb2,
+                                                                                  scenario_tags_pb2, traffic_light_pb2,
+                                                                                  traffic_sign_pb2)
+    from crv import core
+    bad = []
+    lib = {"LineMarking": LineMarking, "LaneletType": LaneletType, "RoadUser": RoadUser, "ObstacleType": ObstacleType,
+           "Tag": Tag, "TimeOfDay": TimeOfDay, "Weather": Weather, "Underground": Underground,
+           "TrafficLightDirection": TrafficLightDirection, "TrafficLightState": TrafficLightState}
+    for k, e in lib.items():
+        mine = sorted((r[0], r[1]) for r in t["enums"][k])
+        theirs = sorted((m.name, str(m.value)) for m in e)
+        if mine != theirs:
+            bad.append("enum %s: spec %r library %r" % (k, mine, theirs))
+    pb = {"LineMarking": lanelet_pb2.LineMarkingEnum.LineMarking, "LaneletType": lanelet_pb2.LaneletTypeEnum.LaneletType,
+          "RoadUser": lanelet_pb2.RoadUserEnum.RoadUser, "ObstacleType": obstacle_pb2.ObstacleTypeEnum.ObstacleType,
+          "Tag": scenario_tags_pb2.TagEnum.Tag, "TimeOfDay": location_pb2.TimeOfDayEnum.TimeOfDay,
+          "Weather": location_pb2.WeatherEnum.Weather, "Underground": location_pb2.UndergroundEnum.Underground,
+          "TrafficLightDirection": traffic_light_pb2.TrafficLightDirectionEnum.TrafficLightDirection,
+          "TrafficLightState": traffic_light_pb2.TrafficLightStateEnum.TrafficLightState}
+    for k, e in pb.items():
+        if sorted(t["pbenums"][k]) != sorted(e.keys()):
+            bad.append("pb enum %s: spec %r .proto %r" % (k, sorted(t["pbenums"][k]), sorted(e.keys())))
+    if sorted(t["numtoks"]) != sorted(NUM):
+        bad.append("number tokens: spec %r python %r" % (t["numtoks"], sorted(NUM)))
+    if sorted(t["positive"]) != sorted(k for k, v in NUM.items() if v > 0):
+        bad.append("positive tokens")
+    import math
+    if sorted(t["angletoks"]) != sorted(k for k, v in NUM.items() if abs(v) <= 2 * math.pi):
+        bad.append("angle tokens")
+    for lo, hi in t["intervals"]:
+        if not NUM[lo] < NUM[hi]:
+            bad.append("interval pair %s %s" % (lo, hi))
+    # state classes
+    mine = [(c, list(a)) for c, a in t["classes"]]
+    theirs = [(c.__name__, [f.name for f in dataclasses.fields(c) if f.name != "time_step"]) for c in S.SpecificStateClasses]
+    if [(c, sorted(a)) for c, a in mine] != [(c, sorted(a)) for c, a in theirs]:
+        bad.append("state classes: spec %r library %r" % (mine, theirs))
+    # state attributes: XSD element names and protobuf fields
+    xsd = etree.parse(os.path.join(core.REPO, "commonroad", "scenario_definition", "xml_definition_files",
+                                   "XML_commonRoad_XSD.xsd"))
+    ns = {"xs": "http://www.w3.org/2001/XMLSchema"}
+    xs_state = set(xsd.xpath("//xs:complexType[@name='state']//xs:element/@name", namespaces=ns)) - {"time"}
+    if {r[2] for r in t["attrs"] if r[2]} != xs_state:
+        bad.append("state attributes vs XSD: %r" % sorted({r[2] for r in t["attrs"] if r[2]} ^ xs_state))
+    pb_state = {f.name for f in obstacle_pb2.State.DESCRIPTOR.fields} - {"point", "shape", "time_step"} | {"position"}
+    if {r[0] for r in t["attrs"] if r[3]} != pb_state:
+        bad.append("state attributes vs obstacle.proto: %r" % sorted({r[0] for r in t["attrs"] if r[3]} ^ pb_state))
+    all_attrs = {f.name for c in S.SpecificStateClasses for f in dataclasses.fields(c)} - {"time_step"}
+    if not all_attrs <= {r[0] for r in t["attrs"]}:
+        notes.append("SPEC-DRIFT state attributes not in Codec!AttrT: %r" % sorted(all_attrs - {r[0] for r in t["attrs"]}))
+    if [r[0] for r in t["signals"]] != [s for s in S.SignalState.__slots__ if s != "time_step"]:
+        bad.append("signal slots")
+    # XSD enumerations
+    for name, vals in t["xsd"].items():
+        if name == "version":
+            continue
+        if name == "trafficLightDirection":
+            got = xsd.xpath("//xs:complexType[@name='trafficLight']//xs:element[@name='direction']//xs:enumeration/@value",
+                            namespaces=ns)
+        else:
+            got = xsd.xpath("//xs:simpleType[@name='%s']//xs:enumeration/@value" % name, namespaces=ns)
+        if sorted(vals) != sorted(str(v) for v in got):
+            bad.append("XSD enumeration %s differs: %r" % (name, sorted(set(vals) ^ set(map(str, got)))))
+    xs_tags = xsd.xpath("//xs:complexType[@name='tag']//xs:element/@name", namespaces=ns)
+    if sorted(t["xsdtags"]) != sorted(map(str, xs_tags)):
+        bad.append("XSD tags")
+    # traffic sign sample
+    for s in t["signids"]:
+        cls = getattr(TS, s["c"], None)
+        if cls is None or s["n"] not in cls.__members__ or str(cls[s["n"]].value) != s["v"]:
+            bad.append("sign id %r" % (s,))
+            continue
+        pbe = getattr(getattr(traffic_sign_pb2, s["c"] + "Enum"), s["c"])
+        if (s["n"] in pbe.keys()) != bool(s["pb"]):
+            bad.append("sign id %r: .proto membership is %s" % (s, s["n"] in pbe.keys()))
+    for c, classes in t["countries"].items():
+        if TS.TrafficSignIDCountries[c].__name__ not in classes:
+            bad.append("country %s: reader class %s" % (c, TS.TrafficSignIDCountries[c].__name__))
+    if bad:
+        raise tlc.MachineryError("Codec.tla tables disagree with the code base (update the spec):\n  " + "\n  ".join(bad))
+
+
+# ======================================================================================================================
+# gamma: descriptor -> real objects (public constructors only)
+# ======================================================================================================================
+def num(tok):
+    return NUM[tok]
+
+
+def g_shape(sh):
+    import numpy as np
+    from commonroad.geometry.shape import Circle, Polygon, Rectangle, ShapeGroup
+    k = sh["k"]
+    if k == "rect":
+        return Rectangle(num(sh["l"]), num(sh["w"]), np.array([num(sh["cx"]), num(sh["cy"])]), num(sh["o"]))
+    if k == "circle":
+        return Circle(num(sh["r"]), np.array([num(sh["cx"]), num(sh["cy"])]))
+    if k == "poly":
+        v = num(sh["s"])
+        pts = [(0.0, 0.0), (v, 0.0), (v, v), (0.0, v)] if sh["n"] == 4 else [(0.0, 0.0), (v, 0.0), (0.0, v)]
+        return Polygon(np.array(pts))
+    if k == "group":
+        return ShapeGroup([g_shape(p) for p in sh["parts"]])
+    raise ValueError("shape kind %r" % (k,))
+
+
+def g_time(t):
+    from commonroad.common.util import Interval
+    return int(t["t"]) if t["k"] == "exact" else Interval(int(t["lo"]), int(t["hi"]))
+
+
+def g_value(a, v, goal_lanelets=None):
+    import numpy as np
+    from commonroad.common.util import AngleInterval, Interval
+    from commonroad.geometry.shape import ShapeGroup
+    k = v["k"]
+    if k == "exact":
+        return np.array([num(v["x"]), num(v["y"])]) if a == "position" else num(v["x"])
+    if k == "interval":
+        return (AngleInterval if a == "orientation" else Interval)(num(v["lo"]), num(v["hi"]))
+    if k == "region":
+        return g_shape(v["sh"])
+    if k == "lanelets":
+        return ShapeGroup([la.polygon for la in goal_lanelets])        # what both readers build for lanelet goals
+    raise ValueError("value kind %r" % (k,))
+
+
+def g_state(st, goal_lanelets=None):
+    import commonroad.scenario.state as S
+    kw = {"time_step": g_time(st["t"])}
+    for e in st["a"]:
+        kw[e["n"]] = g_value(e["n"], e["v"], goal_lanelets)
+    return getattr(S, st["c"])(**kw)
+
+
+def g_signal(sg):
+    from commonroad.scenario.state import SignalState
+    kw = {"time_step": g_time(sg["t"])}
+    for e in sg["b"]:
+        kw[e["n"]] = bool(e["v"])
+    return SignalState(**kw)
+
+
+def g_prediction(pred):
+    from commonroad.prediction.prediction import Occupancy, SetBasedPrediction, TrajectoryPrediction
+    from commonroad.scenario.trajectory import Trajectory
+    if pred["k"] == "traj":
+        return TrajectoryPrediction(Trajectory(pred["t0"], [g_state(s) for s in pred["states"]]), g_shape(pred["sh"]))
+    if pred["k"] == "set":
+        return SetBasedPrediction(pred["t0"], [Occupancy(g_time(o["t"]), g_shape(o["sh"])) for o in pred["occs"]])
+    return None
+
+
+def g_obstacle(o):
+    """Optional constructor arguments are passed only when the descriptor sets them: a descriptor without signal states
+    and prediction yields the default-argument object."""
+    from commonroad.scenario.obstacle import (DynamicObstacle, EnvironmentObstacle, ObstacleType, PhantomObstacle,
+                                              StaticObstacle)
+    role = o["role"]
+    if role == "phantom":
+        p = g_prediction(o["pred"])
+        return PhantomObstacle(o["id"]) if p is None else PhantomObstacle(o["id"], p)
+    typ = ObstacleType[o["type"]]
+    if role == "environment":
+        return EnvironmentObstacle(o["id"], typ, g_shape(o["sh"]))
+    kw = {}
+    if o["iss"]:
+        kw["initial_signal_state"] = g_signal(o["iss"][0])
+    if not o["g"]["serNone"]:
+        kw["signal_series"] = [g_signal(s) for s in o["ser"]]
+    if role == "static":
+        return StaticObstacle(o["id"], typ, g_shape(o["sh"]), g_state(o["init"]), **kw)
+    p = g_prediction(o["pred"])
+    if p is not None:
+        kw["prediction"] = p
+    return DynamicObstacle(o["id"], typ, g_shape(o["sh"]), g_state(o["init"]), **kw)
+
+
+def lanelet_geometry(la):
+    import numpy as np
+    v, i = num(la["geo"]), la["id"]
+    xs = [v * j for j in range(1, la["nv"] + 1)]
+    right = np.array([[x, v * 3 * i] for x in xs])
+    left = np.array([[x, v * (3 * i + 1)] for x in xs])
+    return left, right
+
+
+def g_lanelet(la):
+    from commonroad.common.common_lanelet import LaneletType, LineMarking, RoadUser, StopLine
+    from commonroad.scenario.lanelet import Lanelet
+    left, right = lanelet_geometry(la)
+    kw = {"line_marking_left_vertices": LineMarking[la["lml"]], "line_marking_right_vertices": LineMarking[la["lmr"]]}
+    if la["pred"]:
+        kw["predecessor"] = list(la["pred"])
+    if la["succ"]:
+        kw["successor"] = list(la["succ"])
+    if la["adjL"]:
+        kw["adjacent_left"], kw["adjacent_left_same_direction"] = la["adjL"][0]["id"], bool(la["adjL"][0]["same"])
+    if la["adjR"]:
+        kw["adjacent_right"], kw["adjacent_right_same_direction"] = la["adjR"][0]["id"], bool(la["adjR"][0]["same"])
+    if la["stop"]:
+        s = la["stop"][0]
+        skw = {}
+        if not s["g"]["srefNone"]:
+            skw["traffic_sign_ref"] = set(s["sref"])
+        if not s["g"]["lrefNone"]:
+            skw["traffic_light_ref"] = set(s["lref"])
+        kw["stop_line"] = StopLine(right[-1].copy(), left[-1].copy(), LineMarking[s["lm"]], **skw)
+    if la["types"]:
+        kw["lanelet_type"] = {LaneletType[t] for t in la["types"]}
+    if la["uow"]:
+        kw["user_one_way"] = {RoadUser[t] for t in la["uow"]}
+    if la["ubi"]:
+        kw["user_bidirectional"] = {RoadUser[t] for t in la["ubi"]}
+    if la["signs"]:
+        kw["traffic_signs"] = set(la["signs"])
+    if la["lights"]:
+        kw["traffic_lights"] = set(la["lights"])
+    return Lanelet(left, (left + right) / 2.0, right, la["id"], **kw)
+
+
+def g_pos(pos):
+    import numpy as np
+    return np.array([num(pos[0]["x"]), num(pos[0]["y"])]) if pos else None
+
+
+def g_sign(s):
+    import commonroad.scenario.traffic_sign as TS
+    els = []
+    for e in s["els"]:
+        member = getattr(TS, e["id"]["c"])[e["id"]["n"]]
+        els.append(TS.TrafficSignElement(member, list(e["av"])) if e["av"] else TS.TrafficSignElement(member))
+    kw = {"virtual": True} if s["virt"] else {}
+    return TS.TrafficSign(s["id"], els, set(s["first"]), g_pos(s["pos"]), **kw)
+
+
+def g_light(t):
+    from commonroad.scenario.traffic_light import (TrafficLight, TrafficLightCycle, TrafficLightCycleElement,
+                                                   TrafficLightDirection, TrafficLightState)
+    els = [TrafficLightCycleElement(TrafficLightState[c["c"]], c["d"]) for c in t["cyc"]]
+    cyc = TrafficLightCycle(els, time_offset=t["off"]) if t["off"] else TrafficLightCycle(els)
+    kw = {}
+    if t["dir"] != "ALL":
+        kw["direction"] = TrafficLightDirection[t["dir"]]
+    if not t["act"]:
+        kw["active"] = False
+    return TrafficLight(t["id"], g_pos(t["pos"]), cyc, **kw)
+
+
+def g_intersection(x):
+    from commonroad.scenario.intersection import Intersection, IntersectionIncomingElement
+    incs = []
+    for i in x["incs"]:
+        kw = {}
+        for key, arg in (("lan", "incoming_lanelets"), ("r", "successors_right"), ("s", "successors_straight"),
+                         ("l", "successors_left")):
+            if i[key]:
+                kw[arg] = set(i[key])
+        if i["lo"]:
+            kw["left_of"] = i["lo"]
+        incs.append(IntersectionIncomingElement(i["id"], **kw))
+    if x["g"]["crossNone"]:
+        return Intersection(x["id"], incs)
+    return Intersection(x["id"], incs, set(x["cross"]))
+
+
+def g_planning_problem(p, network):
+    from commonroad.planning.goal import GoalRegion
+    from commonroad.planning.planning_problem import PlanningProblem
+    states, lan = [], {}
+    for i, gl in enumerate(p["goals"]):
+        lls = [network.find_lanelet_by_id(l) for l in gl["lan"]]
+        states.append(g_state(gl["st"], lls))
+        if gl["lan"]:
+            lan[i] = list(gl["lan"])
+    goal = GoalRegion(states) if p["g"]["lanNone"] else GoalRegion(states, lan)
+    return PlanningProblem(p["id"], g_state(p["init"]), goal)
+
+
+def g_location(h):
+    from commonroad.common.util import Time
+    from commonroad.scenario.scenario import (Environment, GeoTransformation, Location, TimeOfDay, Underground, Weather)
+    geo = env = None
+    if h["geo"]:
+        g = h["geo"][0]
+        geo = GeoTransformation(GEO_REF[g["ref"]], num(g["xt"]), num(g["yt"]), num(g["zr"]), num(g["sc"]))
+    if h["env"]:
+        e = h["env"][0]
+        env = Environment(Time(e["hh"], e["mm"]), TimeOfDay[e["tod"]], Weather[e["w"]], Underground[e["u"]])
+    return Location(h["gid"], num(h["lat"]), num(h["lon"]), geo, env)
+
+
+def gamma(desc):
+    """-> (scenario, planning problem set, keyword arguments for CommonRoadFileWriter)"""
+    use_repo()
+    from commonroad.planning.planning_problem import PlanningProblemSet
+    from commonroad.scenario.scenario import Scenario, ScenarioID, Tag
+    h = desc["hdr"]
+    tags = {Tag[t] for t in h["tags"]}
+    sid = ScenarioID(country_id=h["cid"])
+    if h["g"]["via"] == "scenario":
+        sc = Scenario(num(h["dt"]), sid, author=AUTHOR, tags=tags, affiliation=AFFILIATION, source=SOURCE,
+                      location=g_location(h))
+        wkw = {}
+    else:
+        sc = Scenario(num(h["dt"]), sid)
+        wkw = {"author": AUTHOR, "affiliation": AFFILIATION, "source": SOURCE, "tags": tags, "location": g_location(h)}
+    for la in desc["lanelets"]:
+        sc.add_objects(g_lanelet(la))
+    for s in desc["signs"]:
+        sc.add_objects(g_sign(s), set())
+    for t in desc["lights"]:
+        sc.add_objects(g_light(t), set())
+    for x in desc["inters"]:
+        sc.add_objects(g_intersection(x))
+    for o in desc["obstacles"]:
+        sc.add_objects(g_obstacle(o))
+    pps = PlanningProblemSet([g_planning_problem(p, sc.lanelet_network) for p in desc["pps"]])
+    return sc, pps, wkw
+
+
+# ======================================================================================================================
+# alpha: real objects -> leaves [kind, key, path, value] (public accessors only); mirrors Codec!Leaves
+# ======================================================================================================================
+class Real(float):
+    """marks a real-valued leaf"""
+
+
+def _exc(ex):
+    return "exc:" + type(ex).__name__
+
+
+def _idstr(ids):
+    if ids is None:
+        return ""
+    return ",".join(str(i) for i in sorted(int(x) for x in ids))
+
+
+def _namestr(enum_name, members):
+    if members is None:
+        return ""
+    have = {m.name for m in members}
+    return ",".join(n for n in tables()["enum_names"][enum_name] if n in have)
+
+
+def _is_none(x):
+    return "1" if x is None else "0"
+
+
+class _Leaves(list):
+    def lf(self, K, Y, P, v):
+        self.append([K, Y, P, v])
+
+    def re(self, K, Y, P, v):
+        if v is None:
+            self.append([K, Y, P, "None"])
+        else:
+            try:
+                self.append([K, Y, P, Real(v)])
+            except Exception as ex:
+                self.append([K, Y, P, _exc(ex)])
+
+    def xy(self, K, Y, P, p):
+        if p is None:
+            self.re(K, Y + "/x", P, None)
+            self.re(K, Y + "/y", P, None)
+        else:
+            self.re(K, Y + "/x", P, p[0])
+            self.re(K, Y + "/y", P, p[1])
+
+
+def _shape_kind(sh):
+    from commonroad.geometry.shape import Circle, Polygon, Rectangle, ShapeGroup
+    if isinstance(sh, Rectangle):
+        return "rect"
+    if isinstance(sh, Circle):
+        return "circle"
+    if isinstance(sh, Polygon):
+        return "poly"
+    if isinstance(sh, ShapeGroup):
+        return "group:" + "+".join(_shape_kind(s).split(":")[0] for s in sh.shapes)
+    return "other:" + type(sh).__name__
+
+
+def _ring(poly):
+    v = [list(p) for p in poly.vertices]
+    if len(v) > 1 and v[0] == v[-1]:
+        v = v[:-1]
+    return v
+
+
+def a_simple_shape(L, K, Y, P, sh):
+    k = _shape_kind(sh)
+    if k == "rect":
+        L.re(K, Y, P + ".len", sh.length)
+        L.re(K, Y, P + ".wid", sh.width)
+        L.re(K, Y, P + ".ori", sh.orientation)
+        L.xy(K, Y, P + ".ctr", sh.center)
+    elif k == "circle":
+        L.re(K, Y, P + ".rad", sh.radius)
+        L.xy(K, Y, P + ".ctr", sh.center)
+    elif k == "poly":
+        ring = _ring(sh)
+        L.lf(K, Y, P + ".vtx.n", str(len(ring)))
+        for j, p in enumerate(ring, 1):
+            L.xy(K, "%s/%d" % (Y, j), P + ".vtx", p)
+
+
+def a_shape(L, K, Y, P, sh):
+    k = _shape_kind(sh)
+    L.lf(K, Y, P + ".kind", k)
+    if k.startswith("group"):
+        for i, part in enumerate(sh.shapes, 1):
+            a_simple_shape(L, K, "%s/g%d" % (Y, i), P, part)
+    else:
+        a_simple_shape(L, K, Y, P, sh)
+
+
+def a_time(L, K, Y, S, t):
+    from commonroad.common.util import Interval
+    if isinstance(t, Interval):
+        L.lf(K, Y, S + ".time.kind", "interval")
+        L.lf(K, Y, S + ".time", "%s..%s" % (_int(t.start), _int(t.end)))
+    elif t is None:
+        L.lf(K, Y, S + ".time.kind", "None")
+    else:
+        L.lf(K, Y, S + ".time.kind", "exact")
+        L.lf(K, Y, S + ".time", _int(t))
+
+
+def _int(x):
+    try:
+        return str(int(x)) if int(x) == x else repr(x)
+    except Exception:
+        return repr(x)
+
+
+def a_state(L, K, Y, S, st, lanelet_goal=False):
+    import numpy as np
+    from commonroad.common.util import Interval
+    from commonroad.geometry.shape import Shape
+    T = tables()
+    a_time(L, K, Y, S, getattr(st, "time_step", None))
+    have = set(st.attributes)                    # fields, not computed properties (PMState.orientation, ...)
+    for a in T["attr_order"]:
+        v = getattr(st, a, None) if a in have else None
+        if v is None:
+            continue
+        P = S + "." + T["attr_short"][a]
+        if a == "position" and lanelet_goal:
+            L.lf(K, Y, P + ".kind", "lanelets")
+        elif isinstance(v, Shape):
+            L.lf(K, Y, P + ".kind", "region")
+            a_shape(L, K, Y, S + ".region", v)
+        elif isinstance(v, Interval):
+            L.lf(K, Y, P + ".kind", "interval")
+            L.re(K, Y + "/lo", P, v.start)
+            L.re(K, Y + "/hi", P, v.end)
+        elif a == "position" and isinstance(v, (np.ndarray, list, tuple)):
+            L.lf(K, Y, P + ".kind", "exact")
+            L.xy(K, Y, P, v)
+        elif isinstance(v, (int, float, np.floating, np.integer)):
+            L.lf(K, Y, P + ".kind", "exact")
+            L.re(K, Y, P, v)
+        else:
+            L.lf(K, Y, P + ".kind", "other:" + type(v).__name__)
+
+
+def a_signal(L, K, Y, S, sg):
+    a_time(L, K, Y, S, getattr(sg, "time_step", None))
+    for slot, short in tables()["signals"]:
+        if hasattr(sg, slot):
+            v = getattr(sg, slot)
+            L.lf(K, Y, S + "." + short, "None" if v is None else str(int(bool(v))))
+
+
+def a_obstacle(L, o):
+    from commonroad.prediction.prediction import SetBasedPrediction, TrajectoryPrediction
+    K, Y = "obstacle", str(o.obstacle_id)
+    role = o.obstacle_role.value
+    L.lf(K, Y, "role", role)
+    if role != "phantom":
+        L.lf(K, Y, "type", o.obstacle_type.name)
+        a_shape(L, K, Y, "shape", o.obstacle_shape)
+    if role in ("static", "dynamic"):
+        sI, sS = ("staticSignal", "staticSeries") if role == "static" else ("initialSignalState", "signalSeries")
+        a_state(L, K, Y, "initialState", o.initial_state)
+        iss = o.initial_signal_state
+        L.lf(K, Y, sI + ".present", "0" if iss is None else "1")
+        if iss is not None:
+            a_signal(L, K, Y, sI, iss)
+        ser = o.signal_series
+        L.lf(K, Y, sS + ".isNone", _is_none(ser))
+        L.lf(K, Y, sS + ".n", str(len(ser or [])))
+        for i, s in enumerate(ser or [], 1):
+            a_signal(L, K, "%s/s%d" % (Y, i), sS, s)
+    if role in ("dynamic", "phantom"):
+        p = o.prediction
+        if isinstance(p, TrajectoryPrediction):
+            L.lf(K, Y, "prediction.kind", "traj")
+            L.lf(K, Y, "trajectory.t0", _int(p.trajectory.initial_time_step))
+            L.lf(K, Y, "trajectory.n", str(len(p.trajectory.state_list)))
+            for i, s in enumerate(p.trajectory.state_list, 1):
+                a_state(L, K, "%s/t%d" % (Y, i), "trajectory", s)
+            a_shape(L, K, Y, "prediction.shape", p.shape)
+        elif isinstance(p, SetBasedPrediction):
+            L.lf(K, Y, "prediction.kind", "set")
+            L.lf(K, Y, "occupancySet.t0", _int(p.initial_time_step))
+            L.lf(K, Y, "occupancySet.n", str(len(p.occupancy_set)))
+            for i, oc in enumerate(p.occupancy_set, 1):
+                a_time(L, K, "%s/o%d" % (Y, i), "occupancySet", oc.time_step)
+                a_shape(L, K, "%s/o%d" % (Y, i), "occupancySet.shape", oc.shape)
+        else:
+            L.lf(K, Y, "prediction.kind", "none" if p is None else "other:" + type(p).__name__)
+
+
+def a_lanelet(L, la):
+    K, Y = "lanelet", str(la.lanelet_id)
+    for P, verts, lm in (("leftBound", la.left_vertices, la.line_marking_left_vertices),
+                         ("rightBound", la.right_vertices, la.line_marking_right_vertices)):
+        L.lf(K, Y, P + ".n", str(len(verts)))
+        for j, p in enumerate(verts, 1):
+            L.xy(K, "%s/%d" % (Y, j), P, p)
+        L.lf(K, Y, P + ".lineMarking", "None" if lm is None else lm.name)
+    L.lf(K, Y, "predecessor", _idstr(la.predecessor))
+    L.lf(K, Y, "successor", _idstr(la.successor))
+    for P, adj, same in (("adjacentLeft", la.adj_left, la.adj_left_same_direction),
+                         ("adjacentRight", la.adj_right, la.adj_right_same_direction)):
+        L.lf(K, Y, P, "None" if adj is None else str(adj))
+        L.lf(K, Y, P + ".drivingDir", "None" if same is None else ("same" if same else "opposite"))
+    sl = la.stop_line
+    L.lf(K, Y, "stopLine.present", "0" if sl is None else "1")
+    if sl is not None:
+        L.xy(K, Y + "/s", "stopLine", sl.start)
+        L.xy(K, Y + "/e", "stopLine", sl.end)
+        L.lf(K, Y, "stopLine.lineMarking", "None" if sl.line_marking is None else sl.line_marking.name)
+        L.lf(K, Y, "stopLine.trafficSignRef", _idstr(sl.traffic_sign_ref))
+        L.lf(K, Y, "stopLine.trafficSignRef.isNone", _is_none(sl.traffic_sign_ref))
+        L.lf(K, Y, "stopLine.trafficLightRef", _idstr(sl.traffic_light_ref))
+        L.lf(K, Y, "stopLine.trafficLightRef.isNone", _is_none(sl.traffic_light_ref))
+    L.lf(K, Y, "laneletType", _namestr("LaneletType", la.lanelet_type))
+    L.lf(K, Y, "userOneWay", _namestr("RoadUser", la.user_one_way))
+    L.lf(K, Y, "userBidirectional", _namestr("RoadUser", la.user_bidirectional))
+    L.lf(K, Y, "trafficSignRef", _idstr(la.traffic_signs))
+    L.lf(K, Y, "trafficLightRef", _idstr(la.traffic_lights))
+
+
+def a_pos(L, K, Y, pos):
+    L.lf(K, Y, "position.present", "0" if pos is None else "1")
+    if pos is not None:
+        L.xy(K, Y, "position", pos)
+
+
+def a_sign(L, s):
+    K, Y = "trafficSign", str(s.traffic_sign_id)
+    L.lf(K, Y, "element.n", str(len(s.traffic_sign_elements)))
+    for i, e in enumerate(s.traffic_sign_elements, 1):
+        Ye = "%s/e%d" % (Y, i)
+        m = e.traffic_sign_element_id
+        L.lf(K, Ye, "element.idClass", type(m).__name__)
+        L.lf(K, Ye, "element.idName", m.name)
+        L.lf(K, Ye, "element.idValue", str(m.value))
+        L.lf(K, Ye, "element.additionalValue", "|".join(str(v) for v in e.additional_values))
+    a_pos(L, K, Y, s.position)
+    L.lf(K, Y, "virtual", "None" if s.virtual is None else str(int(bool(s.virtual))))
+    L.lf(K, Y, "firstOccurrence", _idstr(s.first_occurrence))
+
+
+def a_light(L, t):
+    K, Y = "trafficLight", str(t.traffic_light_id)
+    cyc = t.traffic_light_cycle
+    els = [] if cyc is None or cyc.cycle_elements is None else cyc.cycle_elements
+    L.lf(K, Y, "cycle.n", str(len(els)))
+    for i, c in enumerate(els, 1):
+        L.lf(K, "%s/c%d" % (Y, i), "cycle.color", c.state.name)
+        L.lf(K, "%s/c%d" % (Y, i), "cycle.duration", _int(c.duration))
+    L.lf(K, Y, "timeOffset", "None" if cyc is None or cyc.time_offset is None else _int(cyc.time_offset))
+    a_pos(L, K, Y, t.position)
+    L.lf(K, Y, "direction", "None" if t.direction is None else t.direction.name)
+    L.lf(K, Y, "active", "None" if t.active is None else str(int(bool(t.active))))
+
+
+def a_intersection(L, x):
+    K, Y = "intersection", str(x.intersection_id)
+    L.lf(K, Y, "incoming.n", str(len(x.incomings)))
+    for inc in sorted(x.incomings, key=lambda i: i.incoming_id):
+        Yi = "%s/%d" % (Y, inc.incoming_id)
+        L.lf(K, Yi, "incoming.incomingLanelet", _idstr(inc.incoming_lanelets))
+        L.lf(K, Yi, "incoming.successorsRight", _idstr(inc.successors_right))
+        L.lf(K, Yi, "incoming.successorsStraight", _idstr(inc.successors_straight))
+        L.lf(K, Yi, "incoming.successorsLeft", _idstr(inc.successors_left))
+        L.lf(K, Yi, "incoming.isLeftOf", "None" if inc.left_of is None else str(inc.left_of))
+    L.lf(K, Y, "crossing", _idstr(x.crossings))
+
+
+def a_planning_problem(L, p):
+    K, Y = "planning", str(p.planning_problem_id)
+    a_state(L, K, Y, "initialState", p.initial_state)
+    goal = p.goal
+    L.lf(K, Y, "goalState.n", str(len(goal.state_list)))
+    lan = goal.lanelets_of_goal_position
+    for i, st in enumerate(goal.state_list):
+        ids = None if lan is None else lan.get(i) if hasattr(lan, "get") else None
+        Yg = "%s/g%d" % (Y, i + 1)
+        a_state(L, K, Yg, "goalState", st, lanelet_goal=bool(ids))
+        L.lf(K, Yg, "goalState.lanelets", _idstr(ids))
+    L.lf(K, Y, "goalLanelets.isNone", _is_none(lan))
+
+
+def a_header(L, sc):
+    K, Y = "header", "0"
+    L.re(K, Y, "dt", sc.dt)
+    L.lf(K, Y, "benchmarkId", str(sc.scenario_id))
+    L.lf(K, Y, "author", str(sc.author))
+    L.lf(K, Y, "affiliation", str(sc.affiliation))
+    L.lf(K, Y, "source", str(sc.source))
+    L.lf(K, Y, "tags", "None" if sc.tags is None else _namestr("Tag", sc.tags))
+    loc = sc.location
+    if loc is None:
+        L.lf(K, Y, "location.geoNameId", "None")
+        L.re(K, Y, "location.gpsLatitude", None)
+        L.re(K, Y, "location.gpsLongitude", None)
+        L.lf(K, Y, "geo.present", "0")
+        L.lf(K, Y, "env.present", "0")
+        return
+    L.lf(K, Y, "location.geoNameId", _int(loc.geo_name_id))
+    L.re(K, Y, "location.gpsLatitude", loc.gps_latitude)
+    L.re(K, Y, "location.gpsLongitude", loc.gps_longitude)
+    g = loc.geo_transformation
+    L.lf(K, Y, "geo.present", "0" if g is None else "1")
+    if g is not None:
+        ref = [k for k, v in GEO_REF.items() if v == g.geo_reference or (v is None and g.geo_reference == 0)]
+        L.lf(K, Y, "geo.reference", ref[0] if ref else "other:" + repr(g.geo_reference)[:30])
+        L.re(K, Y, "geo.xTranslation", g.x_translation)
+        L.re(K, Y, "geo.yTranslation", g.y_translation)
+        L.re(K, Y, "geo.zRotation", g.z_rotation)
+        L.re(K, Y, "geo.scaling", g.scaling)
+    e = loc.environment
+    L.lf(K, Y, "env.present", "0" if e is None else "1")
+    if e is not None:
+        L.lf(K, Y, "env.time", "None" if e.time is None else "%s:%s" % (_int(e.time.hours), _int(e.time.minutes)))
+        L.lf(K, Y, "env.timeOfDay", "None" if e.time_of_day is None else e.time_of_day.name)
+        L.lf(K, Y, "env.weather", "None" if e.weather is None else e.weather.name)
+        L.lf(K, Y, "env.underground", "None" if e.underground is None else e.underground.name)
+
+
+def alpha(sc, pps, header_from=None):
+    """header_from: metadata the writer was given directly (via = "writer") is described by these writer arguments"""
+    L = _Leaves()
+    a_header(L, header_from if header_from is not None else sc)
+    net = sc.lanelet_network
+    for la in sorted(net.lanelets, key=lambda x: x.lanelet_id):
+        a_lanelet(L, la)
+    for s in sorted(net.traffic_signs, key=lambda x: x.traffic_sign_id):
+        a_sign(L, s)
+    for t in sorted(net.traffic_lights, key=lambda x: x.traffic_light_id):
+        a_light(L, t)
+    for x in sorted(net.intersections, key=lambda x: x.intersection_id):
+        a_intersection(L, x)
+    for o in sorted(sc.obstacles, key=lambda x: x.obstacle_id):
+        a_obstacle(L, o)
+    for pid in sorted(pps.planning_problem_dict):
+        a_planning_problem(L, pps.planning_problem_dict[pid])
+    return L
+
+
+# ---- projection ------------------------------------------------------------------------------------------------------
+def _bits(x):
+    return struct.pack("<d", float(x))
+
+
+def closeness(o, b, d):
+    import math
+    if _bits(o) == _bits(b):
+        return "re:exact"
+    if not (math.isfinite(o) and math.isfinite(b)):
+        return "re:out_of_tol"
+    return "re:within_tol" if abs(Fraction(float(b)) - Fraction(float(o))) < Fraction(1, 10 ** d) else "re:out_of_tol"
+
+
+def as_orig(leaves):
+    return [[K, Y, P, "r" if isinstance(v, Real) else v] for K, Y, P, v in leaves]
+
+
+def project(orig, back, d):
+    ref = {(K, Y, P): v for K, Y, P, v in orig if isinstance(v, Real)}
+    out = []
+    for K, Y, P, v in back:
+        if isinstance(v, Real):
+            o = ref.get((K, Y, P))
+            if o is None:
+                v = "re:zero" if float(v) == 0.0 else "re:other"
+            else:
+                v = closeness(float(o), float(v), d)
+        out.append([K, Y, P, v])
+    return out
+
+
+def check_clause_lengths(leaves):
+    for K, Y, P, v in leaves:
+        n = len(K) + 1 + len(P) + (17 if (isinstance(v, Real) or str(v).startswith("re:") or v == "r") else 9)
+        if n > MAX_CLAUSE:
+            raise tlc.MachineryError("leaf path too long for a one-line TLC REJECT message (%d): %s.%s" % (n, K, P))
+
+
+# ======================================================================================================================
+# executing one case
+# ======================================================================================================================
+_tmp = None
+
+
+def _tmpdir():
+    """per-process scratch directory under /verif/out, removed at exit"""
+    global _tmp
+    if _tmp is None or not os.path.isdir(_tmp):
+        import atexit
+        base = os.path.join(tlc.OUT, "codec_tmp")
+        os.makedirs(base, exist_ok=True)
+        _tmp = tempfile.mkdtemp(prefix="p%d_" % os.getpid(), dir=base)
+        atexit.register(shutil.rmtree, _tmp, True)
+    return _tmp
+
+
+def _quiet():
+    import logging
+    warnings.simplefilter("ignore")
+    logging.disable(logging.CRITICAL)
+
+
+class _WriterHeader:
+    """what the writer was told about the scenario when the metadata is passed to the writer, not stored in the scenario"""
+
+    def __init__(self, sc, wkw):
+        self.dt, self.scenario_id = sc.dt, sc.scenario_id
+        self.author, self.affiliation, self.source = wkw["author"], wkw["affiliation"], wkw["source"]
+        self.tags, self.location = wkw["tags"], wkw["location"]
+
+
+def _where(ex):
+    import traceback
+    tb = traceback.extract_tb(ex.__traceback__)
+    for fr in reversed(tb):
+        if "/commonroad/" in fr.filename:
+            return "%s@%s" % (type(ex).__name__, fr.name)
+    return type(ex).__name__
+
+
+def roundtrip(desc, d, fmt):
+    """-> dict(orig=leaves of the original objects, back=leaves read back or None, exc="" | "write" | "read",
+               why=exception summary, data=written bytes or None).  Exceptions of gamma / alpha propagate (driver bugs)."""
+    use_repo()
+    _quiet()
+    from commonroad.common.file_reader import CommonRoadFileReader
+    from commonroad.common.file_writer import CommonRoadFileWriter, OverwriteExistingFile
+    from commonroad.common.util import FileFormat
+    sc, pps, wkw = gamma(desc)
+    orig = alpha(sc, pps, header_from=_WriterHeader(sc, wkw) if wkw else None)
+    ff = FileFormat.XML if fmt == "xml" else FileFormat.PROTOBUF
+    path = os.path.join(_tmpdir(), "case" + (".xml" if fmt == "xml" else ".pb"))
+    if os.path.exists(path):
+        os.remove(path)
+    res = {"orig": orig, "back": None, "exc": "", "why": "", "data": None}
+    try:
+        try:
+            CommonRoadFileWriter(sc, pps, decimal_precision=d, file_format=ff, **wkw).write_to_file(
+                path, OverwriteExistingFile.ALWAYS)
+            with open(path, "rb") as f:
+                res["data"] = f.read()
+        except Exception as ex:
+            res["exc"], res["why"] = "write", _where(ex)
+            return res
+        try:
+            sc2, pps2 = CommonRoadFileReader(path, file_format=ff).open()
+        except Exception as ex:
+            res["exc"], res["why"] = "read", _where(ex)
+            return res
+        res["back"] = alpha(sc2, pps2)
+        return res
+    finally:
+        if os.path.exists(path):
+            os.remove(path)
+
+
+def roundtrip_event(case, fmt):
+    desc, d, comp = case["desc"], case["d"], case["comp"]
+    r = roundtrip(desc, d, fmt)
+    back = project(r["orig"], r["back"], d) if r["back"] is not None else []
+    check_clause_lengths(r["orig"])
+    check_clause_lengths(back)
+    sig = comp if not r["exc"] else "%s/%s" % (comp, r["why"])
+    return {"op": "xml_roundtrip" if fmt == "xml" else "pb_roundtrip", "sig": sig, "d": d, "desc": desc,
+            "orig": as_orig(r["orig"]), "back": back, "exc": r["exc"]}
+
+
+def xsd_case_event(case):
+    r = roundtrip(case["desc"], case["d"], "xml")
+    comp = case["comp"]
+    if r["exc"] == "write":
+        return {"op": "xsd", "sig": "%s/%s" % (comp, r["why"]), "exc": "write", "els": [], "ids": [], "refs": [],
+                "lxml": "none", "detail": "", "reader": "none"}
+    ev = xsd_event(r["data"], comp, "ok" if r["exc"] == "" else "exc")
+    if r["exc"]:
+        ev["sig"] = "%s/%s" % (comp, r["why"])
+    return ev
+
+
+# ======================================================================================================================
+# model checking, case generation (shared by the three drivers)
+# ======================================================================================================================
+def _parallel(jobs):
+    import concurrent.futures as cf
+    with cf.ThreadPoolExecutor(max_workers=len(jobs)) as ex:
+        return [f.result() for f in [ex.submit(j) for j in jobs]]
+
+
+def model_check(ctx, schema_only=False):
+    comps = COMPONENTS
+    _parallel([(lambda c=c: ctx.mc("MC_Codec", "MC_Codec_%s.cfg" % c, coverage=False)) for c in comps])
+
+
+def gen_cases(ctx, fmt):
+    """All cases of the per-component GEN runs the spec declares expressible in `fmt`, plus the seeded mixed draw."""
+    suffix = "_t" if ctx.thorough else ""
+    cfgs = ["GEN_Codec_%s.cfg" % c for c in COMPONENTS if c != "numbers"] + ["GEN_Codec_numbers%s.cfg" % suffix,
+                                                                            "GEN_Codec_mixed%s.cfg" % suffix]
+    outs = _parallel([(lambda cfg=cfg: tlc.generate("MC_Codec", cfg, "%s_%s" % (ctx.prop, cfg.replace(".cfg", "")),
+                                                    extra=("-seed", str(ctx.seed + 1)))) for cfg in cfgs])
+    cases, table = [], None
+    for cfg, (cs, r) in zip(cfgs, outs):
+        ctx.mc_runs.append({"module": "MC_Codec", "cfg": cfg, "distinct_states": r["distinct"],
+                            "states_generated": r["generated"], "depth": r["depth"], "wall_s": r["wall_s"],
+                            "verdict": "generated %d cases" % len(cs)})
+        table = table or tables_from_output(r["out"])
+        cases += cs
+    save_tables(table)
+    check_tables(table, ctx.notes)
+    total = len(cases)
+    cases = [c for c in cases if c[fmt]]
+    ctx.extra["cases_generated"] = total
+    ctx.extra["cases_expressible_in_" + fmt] = len(cases)
+    by = {}
+    for c in cases:
+        by[c["comp"]] = by.get(c["comp"], 0) + 1
+    ctx.extra["cases_per_component"] = by
+    return cases
+
+
+def nontrivial(case):
+    return json.dumps([case["d"], case["desc"]], sort_keys=True)
+
+
+_NOT_CARRIED_HINT = ("isNone", "firstOccurrence", "element.id", "static", "prediction.shape")
+
+
+def corrupt_roundtrip(trace, rng):
+    """alter ONE read-back leaf (value of a discrete leaf / closeness class of a real one) or the outcome"""
+    e = trace["ev"][0]
+    if e["exc"] or not e["back"]:
+        return None
+    cand = [i for i, l in enumerate(e["back"]) if not any(h in l[2] for h in _NOT_CARRIED_HINT)]
+    i = rng.choice(cand)
+    l = e["back"][i]
+    how = rng.choice(["value", "drop"])
+    if how == "drop":
+        del e["back"][i]
+    elif l[3].startswith("re:"):
+        l[3] = "re:out_of_tol"
+    else:
+        l[3] = l[3] + "~"
+    return trace
+
+
+def corrupt_xsd(trace, rng):
+    e = trace["ev"][0]
+    if e["exc"] or e["lxml"] != "valid":
+        return None
+    how = rng.choice(["order", "lexical", "ref", "reader"])
+    if how == "order":
+        cand = [x for x in e["els"] if x["p"][-1] in ("rectangle", "point", "lanelet", "cycleElement") and len(x["ch"]) >= 2]
+        if not cand:
+            return None
+        x = rng.choice(cand)
+        x["ch"][0], x["ch"][1] = x["ch"][1], x["ch"][0]
+        e["lxml"] = "invalid"
+    elif how == "lexical":
+        cand = [x for x in e["els"] if x["tc"].startswith("dec")]
+        if not cand:
+            return None
+        rng.choice(cand)["tc"] = "exp"
+        e["lxml"] = "invalid"
+    elif how == "ref":
+        e["refs"].append("98")
+        e["lxml"] = "invalid"
+    else:
+        e["reader"] = "exc"
+    return trace
